@@ -360,3 +360,158 @@ Proof.
   exists enc. split; [exact He|]. split; [exact Hl|]. split; [|now rewrite encode_seq_norm].
   unfold decode_file. now rewrite (lenN_length_eq enc bs) by exact Hl.
 Qed.
+
+(* ---------------------------------------------------------------- Encode / EncodeSW succeed on exact decoded trees *)
+Lemma dec_hdr_compact bs h r : bytes_ok bs = true -> dec_hdr bs = Ok (h, r) -> h_len h = 8 -> h_size h < 4294967296.
+Proof.
+  intros Hok H Hl. unfold dec_hdr in H. run H; inj_pret H; cbn [h_len h_size] in *;
+    change (256 ^ N.of_nat 4) with 4294967296 in *; lia.
+Qed.
+
+Lemma caps_leaf h l r : (forall b, raw_leaf l (dflt_rsv l) = Ok b -> lenN b <= size_leaf l) -> caps_ok (MLeaf h l r) = true.
+Proof.
+  intros H. cbn [caps_ok]. destruct (raw_leaf l (dflt_rsv l)) as [b| | |] eqn:E; try (destruct l; reflexivity).
+  specialize (H b eq_refl). destruct l; try reflexivity; now apply N.leb_le.
+Qed.
+
+Definition fbox (f : nat) : Prop :=
+  forall bs t rest, bytes_ok bs = true -> decode_box f bs = Ok (t, rest) -> exact_box t = true ->
+    enc_fits t = true /\ caps_ok t = true.
+Definition fchildren (f : nat) : Prop :=
+  forall target pos used bs cs rest, bytes_ok bs = true ->
+    decode_children f target pos used bs = Ok (cs, rest) -> forallb exact_box cs = true ->
+    forallb enc_fits cs = true /\ forallb caps_ok cs = true.
+Definition fentries (f : nat) : Prop :=
+  forall target pos bs cs rest, bytes_ok bs = true ->
+    decode_entries f target pos bs = Ok (cs, rest) -> forallb exact_box cs = true ->
+    forallb enc_fits cs = true /\ forallb caps_ok cs = true.
+
+Lemma fchildren_step f : fbox f -> fchildren f -> fchildren (S f).
+Proof.
+  intros IHb IHc target pos used bs cs rest Hok H Hex. cbn [decode_children] in H.
+  destruct (target <? pos); [discriminate|]. destruct (pos =? target); [injection H as <- <-; now split|].
+  destruct (decode_box f bs) as [[c r]| | |] eqn:Eb; try discriminate.
+  destruct (negb (pos + size_box c =? used + (lenN bs - lenN r))); [discriminate|].
+  destruct (decode_children f target (pos + size_box c) (used + (lenN bs - lenN r)) r) as [[cs' r']| | |] eqn:Ec; try discriminate.
+  injection H as <- <-. cbn [forallb] in *. apply andb_true_iff in Hex. destruct Hex as [Hc Hcs].
+  destruct (proj1 (tree_both f) _ _ _ Hok Eb Hc) as (_ & _ & _ & Hokr).
+  destruct (IHb _ _ _ Hok Eb Hc) as [H1 H2]. destruct (IHc _ _ _ _ _ _ Hokr Ec Hcs) as [H3 H4].
+  now rewrite H1, H2, H3, H4.
+Qed.
+
+Lemma fentries_step f : fbox f -> fentries f -> fentries (S f).
+Proof.
+  intros IHb IHe target pos bs cs rest Hok H Hex. cbn [decode_entries] in H.
+  destruct (target <=? pos); [injection H as <- <-; now split|].
+  destruct (decode_box f bs) as [[c r]| | |] eqn:Eb; try discriminate.
+  destruct (decode_entries f target (pos + size_box c) r) as [[cs' r']| | |] eqn:Ec; try discriminate.
+  injection H as <- <-. cbn [forallb] in *. apply andb_true_iff in Hex. destruct Hex as [Hc Hcs].
+  destruct (proj1 (tree_both f) _ _ _ Hok Eb Hc) as (_ & _ & _ & Hokr).
+  destruct (IHb _ _ _ Hok Eb Hc) as [H1 H2]. destruct (IHe _ _ _ _ _ Hokr Ec Hcs) as [H3 H4].
+  now rewrite H1, H2, H3, H4.
+Qed.
+
+Lemma fbox_step f : fbox f -> fchildren f -> fentries f -> fbox (S f).
+Proof.
+  intros IHb IHc IHe bs t rest Hok H Hex.
+  (* the size of the whole re-encoding is already known from the fixed-point induction *)
+  destruct (proj1 (stable_all (S f)) _ _ _ Hok H Hex) as (enc & Henc & _ & Hsz & _).
+  cbn [decode_box] in H.
+  destruct (dec_hdr bs) as [[h r]| | |] eqn:Eh; try discriminate.
+  destruct (dec_hdr_spec _ _ _ Hok Eh) as (Hokr & Hle & Hshape).
+  pose proof (dec_hdr_compact _ _ _ Hok Eh) as Hcompact.
+  destruct ((lenN r + h_len h <? h_size h) && negb (bytes_eqb (h_name h) n_mdat)); [discriminate|].
+  destruct (lookup (h_name h) leaf_table) as [d|] eqn:El.
+  - destruct (d h r) as [[[l rsv] r']| | |] eqn:Ed; try discriminate. injection H as <- <-.
+    cbn [exact_box] in Hex. apply andb_true_iff in Hex. destruct Hex as [Hh Hg].
+    cbn [raw_box size_box] in Henc, Hsz. split.
+    + cbn [enc_fits]. destruct (leaf_large l); [reflexivity|]. cbn [orb].
+      unfold hdr_exact in Hh. apply andb_true_iff in Hh. destruct Hh as [H1 H2]. apply N.eqb_eq in H1, H2.
+      apply N.ltb_lt. rewrite <- H2. now apply Hcompact.
+    + apply caps_leaf. intros b Hb. rewrite Henc in Hb. injection Hb as <-. lia.
+  - destruct (lookup (h_name h) pre_table) as [[d lk]|] eqn:Epre.
+    { destruct (d h r) as [[[l rsv] r1]| | |] eqn:Ed; try discriminate.
+      assert (Hgoal : forall cs, exact_box (MPre h l rsv cs) = true ->
+                (forallb exact_box cs = true -> forallb enc_fits cs = true /\ forallb caps_ok cs = true) ->
+                enc_fits (MPre h l rsv cs) = true /\ caps_ok (MPre h l rsv cs) = true).
+      { intros cs Hex' Hk. cbn [exact_box] in Hex'. apply andb_true_iff in Hex'. destruct Hex' as [Hex' Hcs].
+        apply andb_true_iff in Hex'. destruct Hex' as [Hh _].
+        unfold hdr_exact in Hh. apply andb_true_iff in Hh. destruct Hh as [H1 H2]. apply N.eqb_eq in H1, H2.
+        destruct (Hk Hcs) as [Hf Hc]. cbn [enc_fits caps_ok]. rewrite Hf, Hc, andb_true_r. split; [|reflexivity].
+        apply N.ltb_lt. rewrite <- H2. now apply Hcompact. }
+      assert (Hokr1 : bytes_ok r1 = true).
+      { destruct (lookup_in _ _ _ Epre) as (k & Hin & Hk).
+        pose proof (proj1 (Forall_forall _ _) pre_table_stable _ Hin) as Hst. cbn [fst snd] in Hst.
+        pose proof (proj1 (Forall_forall _ _) pre_table_ok _ Hin) as [Hloss _]. cbn [fst snd] in Hloss.
+        destruct lk.
+        - destruct (h_size h <? off); [discriminate|].
+          destruct (decode_children f (h_size h - off) 0 0 r1) as [[cs r'']| | |]; try discriminate.
+          destruct (pre_count_ok l (lenN cs)); [|discriminate]. injection H as <- <-.
+          cbn [exact_box] in Hex. apply andb_true_iff in Hex. destruct Hex as [Hex' _].
+          apply andb_true_iff in Hex'. destruct Hex' as [_ Hg]. now destruct (Hloss _ _ _ _ _ Hokr Ed Hg) as (_ & _ & _ & ?).
+        - destruct (decode_entries f (h_size h) start r1) as [[cs r'']| | |]; try discriminate. injection H as <- <-.
+          cbn [exact_box] in Hex. apply andb_true_iff in Hex. destruct Hex as [Hex' _].
+          apply andb_true_iff in Hex'. destruct Hex' as [_ Hg]. now destruct (Hloss _ _ _ _ _ Hokr Ed Hg) as (_ & _ & _ & ?). }
+      destruct lk as [off|start].
+      - destruct (h_size h <? off); [discriminate|].
+        destruct (decode_children f (h_size h - off) 0 0 r1) as [[cs r'']| | |] eqn:Ec; try discriminate.
+        destruct (pre_count_ok l (lenN cs)); [|discriminate]. injection H as <- <-.
+        apply Hgoal; [assumption|]. intros Hcs. exact (IHc _ _ _ _ _ _ Hokr1 Ec Hcs).
+      - destruct (decode_entries f (h_size h) start r1) as [[cs r'']| | |] eqn:Ec; try discriminate. injection H as <- <-.
+        apply Hgoal; [assumption|]. intros Hcs. exact (IHe _ _ _ _ _ Hokr1 Ec Hcs). }
+    destruct (is_cont (h_name h)).
+    + destruct (decode_children f (h_size h - 8) 0 0 r) as [[cs r'']| | |] eqn:Ec; try discriminate.
+      destruct (bytes_eqb (h_name h) n_edts && negb (edts_ok cs)); [discriminate|]. injection H as <- <-.
+      cbn [exact_box] in Hex. apply andb_true_iff in Hex. destruct Hex as [Hex _].
+      apply andb_true_iff in Hex. destruct Hex as [Hex _]. apply andb_true_iff in Hex. destruct Hex as [Hlen Hcs].
+      apply N.eqb_eq in Hlen.
+      destruct (proj1 (proj2 (tree_both f)) _ _ _ _ _ _ Hokr Ec Hcs) as (_ & _ & _ & _ & Hsum).
+      destruct (IHc _ _ _ _ _ _ Hokr Ec Hcs) as [Hf Hc]. cbn [enc_fits caps_ok]. rewrite Hf, Hc, andb_true_r.
+      split; [|reflexivity]. apply N.ltb_lt. specialize (Hcompact Hlen). lia.
+    + destruct (rdB (payload_len h) r) as [[p r'']| | |] eqn:Ep; try discriminate. injection H as <- <-.
+      destruct (rdB_spec _ _ _ _ Hokr Ep) as (_ & Hlp & _ & _). unfold payload_len in Hlp.
+      cbn [enc_fits caps_ok]. destruct Hshape as [[Hl _]|[Hl _]]; rewrite Hl; cbn [N.ltb N.compare Pos.compare Pos.compare_cont orb].
+      * split; [apply N.ltb_lt; exact (Hcompact Hl)|apply N.leb_le; lia].
+      * split; [reflexivity|apply N.leb_le; lia].
+Qed.
+
+Lemma fits_all f : fbox f /\ fchildren f /\ fentries f.
+Proof.
+  induction f as [|f (IHb & IHc & IHe)].
+  - split; [|split].
+    + intros bs t rest _ H. discriminate H.
+    + intros target pos used bs cs rest _ H. discriminate H.
+    + intros target pos bs cs rest _ H. discriminate H.
+  - split; [|split]; [now apply fbox_step|now apply fchildren_step|now apply fentries_step].
+Qed.
+
+Lemma forallb_map_ext (f : mbox -> bool) cs : Forall (fun c => f (norm_box c) = f c) cs -> forallb f (map norm_box cs) = forallb f cs.
+Proof. induction 1 as [|c t Hc _ IH]; [reflexivity|]. cbn [map forallb]. now rewrite Hc, IH. Qed.
+
+Lemma enc_fits_norm t : enc_fits (norm_box t) = enc_fits t.
+Proof.
+  induction t as [h l r|h cs IH|h p|h l r cs IH] using mbox_rect2; cbn [norm_box enc_fits]; try reflexivity.
+  - now rewrite sizes_norm, (forallb_map_ext enc_fits cs IH).
+  - now rewrite sizes_norm, (forallb_map_ext enc_fits cs IH).
+Qed.
+Lemma caps_ok_norm t : caps_ok (norm_box t) = caps_ok t.
+Proof.
+  induction t as [h l r|h cs IH|h p|h l r cs IH] using mbox_rect2; cbn [norm_box caps_ok]; try reflexivity.
+  - exact (forallb_map_ext caps_ok cs IH).
+  - exact (forallb_map_ext caps_ok cs IH).
+Qed.
+
+(* the fixed point stated on the two encode paths of the Go API (Box.Encode and Box.EncodeSW) *)
+Lemma fixpoint_api bs t : bytes_ok bs = true -> decode bs = Ok (t, []) -> exact_box t = true ->
+  exists enc, encode_w t = Ok enc /\ encode_sw t = Ok enc /\ lenN enc = lenN bs /\
+    decode enc = Ok (norm_box t, []) /\ encode_w (norm_box t) = Ok enc /\ encode_sw (norm_box t) = Ok enc.
+Proof.
+  intros Hok H Hex. destruct (fixpoint _ _ Hok H Hex) as (enc & He & Hl & Hs & Hd & _ & Hn).
+  unfold decode in H. destruct (proj1 (fits_all _) _ _ _ Hok H Hex) as [Hf Hc].
+  exists enc. unfold encode_w, encode_sw. rewrite He, Hf, Hc. cbn [andb].
+  replace (lenN enc <=? size_box t) with true by (symmetry; apply N.leb_le; lia).
+  repeat split; try assumption.
+  all: rewrite Hn, enc_fits_norm, ?caps_ok_norm, ?size_norm, Hf, ?Hc; cbn [andb].
+  - reflexivity.
+  - replace (lenN enc <=? size_box t) with true by (symmetry; apply N.leb_le; lia). reflexivity.
+Qed.
